@@ -40,6 +40,7 @@ type Layout struct {
 type Tcx struct {
 	Mode    Mode
 	layouts map[string]*Layout
+	relaxRefs bool // the function under verification lives in a package with embedded objects
 }
 
 func NewTcx(m Mode) *Tcx { return &Tcx{Mode: m, layouts: map[string]*Layout{}} }
@@ -142,6 +143,8 @@ func (tc *Tcx) leavesOf(t types.Type, prefix string) []Leaf {
 			return []Leaf{{prefix, ix, t, "float"}}
 		case u.Kind() == types.UnsafePointer:
 			return []Leaf{{prefix + ".ref", ix, nil, "ref"}}
+		case u.Kind() == types.Invalid:
+			return nil // unused component of a range tuple
 		case u.Kind() == types.UntypedNil:
 			return []Leaf{{prefix + ".ref", ix, nil, "ref"}}
 		}
@@ -159,6 +162,9 @@ func (tc *Tcx) leavesOf(t types.Type, prefix string) []Leaf {
 		var out []Leaf
 		for i := 0; i < u.NumFields(); i++ {
 			f := u.Field(i)
+			if embeddedFields[f] {
+				continue
+			}
 			out = append(out, tc.leavesOf(f.Type(), prefix+"."+f.Name())...)
 		}
 		return out
@@ -182,10 +188,40 @@ func (tc *Tcx) leavesOf(t types.Type, prefix string) []Leaf {
 // fieldRange gives the leaf offset and count of field i in struct type st.
 func (tc *Tcx) fieldRange(st *types.Struct, i int) (off, n int) {
 	for j := 0; j < i; j++ {
+		if embeddedFields[st.Field(j)] {
+			continue
+		}
 		off += len(tc.Layout(st.Field(j).Type()).Leaves)
+	}
+	if embeddedFields[st.Field(i)] {
+		return off, 0
 	}
 	n = len(tc.Layout(st.Field(i).Type()).Leaves)
 	return
+}
+
+// embeddedFields: struct-typed fields declared `//@ embedded T.f`. Such a field is modelled as an
+// object of its own (reference emb(parent, index)), because its address is stored or passed around
+// (&c.root in a ring of *node, &c.mu passed to Lock); the parent's layout does not contain it.
+var embeddedFields = map[*types.Var]bool{}
+
+const embBase = int64(1) << 62
+
+// validRef: v is below the allocation counter, or (only when embedded objects are in use) an
+// embedded-object reference.
+func (tc *Tcx) validRef(v, nalloc *Term) *Term {
+	if !tc.relaxRefs {
+		return tc.IdxLt(v, nalloc)
+	}
+	return Or(tc.IdxLt(v, nalloc), tc.IdxLe(tc.IdxNum(embBase), v))
+}
+
+// embRef is the reference of the embedded object at field index idx of the object parent.
+func (tc *Tcx) embRef(parent *Term, idx int) *Term {
+	if tc.Mode == ModeBV {
+		return bvBin("bvadd", bvBin("bvadd", bvBin("bvmul", parent, BVNum(64, 64)), BVNum(int64(idx)+1, 64)), BVNum(embBase, 64))
+	}
+	return IAdd(IAdd(IMul(parent, IntNum(64)), IntNum(int64(idx)+1)), IntNum(embBase))
 }
 
 // PtrInfo is an engine-level pointer.
@@ -196,6 +232,8 @@ const (
 	PObj                  // heap object of type Root at reference Ref
 	PElem                 // element Idx of backing array Arr (elements of type Root)
 	PGlobal               // package-level variable
+	PMap                  // frame items only: the contents of a map
+	PGhost                // frame items only: a ghost field (lock state) of an object
 )
 
 type PtrInfo struct {
